@@ -405,6 +405,8 @@ def decoder_patterns(p: Program, B: bytes):
                 env[tgt.id] = F.fold(mp, val, env)
             except NotConst:
                 env.pop(tgt.id, None)
+        elif isinstance(tgt, ast.Attribute) and isinstance(tgt.value, ast.Name) and tgt.value.id == "self" and isinstance(val, ast.Name) and isinstance(env.get(val.id), CompiledRe):
+            out[tgt.attr] = (env[val.id].pattern, env[val.id].flags, st)
         elif isinstance(tgt, ast.Attribute) and isinstance(tgt.value, ast.Name) and tgt.value.id == "self" and isinstance(val, ast.Call):
             r = p.resolve_call(init, val)
             is_re = r == ("ext", "re.compile")
